@@ -107,7 +107,7 @@ def make_variant(keys, vals, spec, d, zero):
     if kind.startswith("full"):
         allk = list(range(2 ** d))
         if kind == "fullcanon":
-            allk = sorted(allk, key=lambda k: (pc(k), k))
+            allk = list(S.canon_sorted(allk))
         m = dict(zip(keys, vals))
         return allk, [m.get(k, zero) for k in allk]
     if "pad" in kind:
@@ -116,7 +116,7 @@ def make_variant(keys, vals, spec, d, zero):
                 keys.append(k)
                 vals.append(zero)
         if "perm" not in kind:
-            order = sorted(range(len(keys)), key=lambda i: (pc(keys[i]), keys[i]))
+            order = sorted(range(len(keys)), key=lambda i: (pc(keys[i]), S._bits(keys[i])))
             keys, vals = [keys[i] for i in order], [vals[i] for i in order]
     if "perm" in kind:
         rank = {k: i for i, k in enumerate(spec["order"])}
